@@ -39,6 +39,16 @@ Theorem C01_pipeline_correct : forall tc use_memo P q e M D ks1 ks2,
 Proof. exact pipeline_correct. Qed.
 Print Assumptions C01_pipeline_correct.
 
+(* the same for ALL queries at once, as the real pipeline runs: one acyclic formula built for every query
+   and evidence name (so it also contains atoms that are irrelevant to a particular query: they are summed
+   out by the weights), one conditional probability per query *)
+Theorem C01_pipeline_correct_all : forall tc use_memo P qs e M D kqs kes,
+    wf_src P -> stratified (wp_graph P) -> (forall a, is_model (wp_graph P) a (M a)) ->
+    break_cycles_m tc use_memo (wp_graph P) (ai_of P) qs e = Some (D, kqs, kes) ->
+    pipeline_all tc use_memo P qs e = Some (map (fun q => world_prob P M q e) qs).
+Proof. exact pipeline_all_correct. Qed.
+Print Assumptions C01_pipeline_correct_all.
+
 (* the two counts separately: WMC(CNF /\ e /\ q) and WMC(CNF /\ e) are the world sums *)
 Theorem C01_pipeline_counts : forall tc use_memo P q e M D kq kes,
     stratified (wp_graph P) -> (forall a, is_model (wp_graph P) a (M a)) -> extras_fresh P ->
@@ -76,6 +86,24 @@ Theorem C01_pipe_circuit : forall P D ks C,
     ModelCircuit.check_ddnnf (length D) C (cond_cnf P D ks) = true -> pipe_eval P D C = pipe_wmc P D ks.
 Proof. exact circuit_is_count. Qed.
 Print Assumptions C01_pipe_circuit.
+
+(* The evaluator's mechanics (SimpleDDNNFEvaluator): ONE circuit compiled from the unconditioned CNF and
+   accepted by C10's verified checker; evidence and query imposed by setting the weight of the opposite
+   literal to 0; keys must be expressible by weights (TRUE or a literal, not FALSE) *)
+Theorem C01_pipeline_evaluator : forall tc use_memo P q e M C D kq kes,
+    wf_src P -> stratified (wp_graph P) -> (forall a, is_model (wp_graph P) a (M a)) ->
+    break_cycles_m tc use_memo (wp_graph P) (ai_of P) [q] e = Some (D, [kq], kes) ->
+    ModelCircuit.check_ddnnf (length D) C (clark_cnf P D) = true ->
+    forallb (lit_key (length D)) (kq :: kes) = true ->
+    evaluator tc use_memo P q e C = Some (world_prob P M q e).
+Proof. exact evaluator_correct. Qed.
+Print Assumptions C01_pipeline_evaluator.
+
+(* zeroed weights = unit clauses *)
+Theorem C01_pipe_weights_are_units : forall P D ks,
+    forallb (lit_key (length D)) ks = true -> pipe_wmc_w P D ks = pipe_wmc P D ks.
+Proof. exact pipe_wmc_w_correct. Qed.
+Print Assumptions C01_pipe_weights_are_units.
 
 (* ================================================================== STAGE THEOREMS *)
 (* shape of break_cycles' output (the part C09 does not state): no TRUE children, atoms pairwise distinct,
@@ -133,6 +161,16 @@ Theorem C01_pipe_count_is_world_sum : forall P D ks,
     pipe_wmc P D ks = world_sum P (fun a => b2q (holds (vget (dag_val a D)) ks)).
 Proof. exact pipe_wmc_world. Qed.
 Print Assumptions C01_pipe_count_is_world_sum.
+
+(* the formula's real constraint list also holds the trivial ConstraintAD objects (one relevant member, no
+   extra node) and arbitrary weights / names tables: the generated clarks_completion emits the same clauses *)
+Theorem C01_pipe_trivial_constraints : forall P D ws cons names,
+    filter (fun ad => 2 <=? length (ad_nodes ad))%nat cons = cons_of P D ->
+    map conv_clause (c_clauses (clarks_completion
+       {| f_nodes := D; f_weights := ws; f_constraints := cons; f_names := names |} false cnf_empty))
+    = clark_cnf P D.
+Proof. exact clark_cnf_trivial. Qed.
+Print Assumptions C01_pipe_trivial_constraints.
 
 (* the model function exists for stratified programs (and is unique: C09_stratified_model_unique) *)
 Theorem C01_pipe_model_exists : forall F, stratified F -> exists M, forall a, is_model F a (M a).
@@ -262,3 +300,55 @@ Proof.
   split. { eexists. split; vm_compute; reflexivity. }
   vm_compute. repeat split; reflexivity.
 Qed.
+
+(* the circuit dsharp (-smoothNNF) returns for the 16 clauses of the first example, in ProbLog's DDNNF node
+   layout: accepted by the verified checker; evaluated with the evidence / query weights zeroed it gives
+   the same 15/22 *)
+Definition exC : ModelCircuit.circuit :=
+  [ModelCircuit.Atom 5;
+   ModelCircuit.Atom 2;
+   ModelCircuit.Atom 4;
+   ModelCircuit.Disj [ModelCircuit.RPos 2; ModelCircuit.RNeg 2];
+   ModelCircuit.Atom 6;
+   ModelCircuit.Atom 1;
+   ModelCircuit.Atom 7;
+   ModelCircuit.Atom 8;
+   ModelCircuit.Atom 3;
+   ModelCircuit.Conj [ModelCircuit.RPos 4; ModelCircuit.RPos 5; ModelCircuit.RPos 6; ModelCircuit.RNeg 7; ModelCircuit.RNeg 8];
+   ModelCircuit.Conj [ModelCircuit.RPos 3; ModelCircuit.RPos 9];
+   ModelCircuit.Conj [ModelCircuit.RNeg 2; ModelCircuit.RNeg 7];
+   ModelCircuit.Conj [ModelCircuit.RPos 2; ModelCircuit.RPos 7];
+   ModelCircuit.Disj [ModelCircuit.RPos 11; ModelCircuit.RPos 12];
+   ModelCircuit.Conj [ModelCircuit.RNeg 4; ModelCircuit.RNeg 5; ModelCircuit.RNeg 6; ModelCircuit.RPos 8; ModelCircuit.RPos 13];
+   ModelCircuit.Disj [ModelCircuit.RPos 10; ModelCircuit.RPos 14];
+   ModelCircuit.Conj [ModelCircuit.RNeg 0; ModelCircuit.RNeg 1; ModelCircuit.RPos 15];
+   ModelCircuit.Conj [ModelCircuit.RNeg 0; ModelCircuit.RNeg 2; ModelCircuit.RNeg 4];
+   ModelCircuit.Conj [ModelCircuit.RPos 0; ModelCircuit.RPos 2; ModelCircuit.RPos 4];
+   ModelCircuit.Disj [ModelCircuit.RPos 17; ModelCircuit.RPos 18];
+   ModelCircuit.Conj [ModelCircuit.RPos 1; ModelCircuit.RNeg 5; ModelCircuit.RPos 6; ModelCircuit.RNeg 7; ModelCircuit.RNeg 8; ModelCircuit.RPos 19];
+   ModelCircuit.Disj [ModelCircuit.RPos 16; ModelCircuit.RPos 20]].
+
+Example C01_example_evaluator :
+  match break_cycles_m false true exF (ai_of exP) [exq] exe with
+  | Some (D, ks1, ks2) =>
+      ModelCircuit.check_ddnnf (length D) exC (clark_cnf exP D) = true /\
+      forallb (lit_key (length D)) (ks1 ++ ks2) = true
+  | None => False
+  end /\
+  exists p, evaluator false true exP exq exe exC = Some (POk p) /\ this p = (15#22)%Q.
+Proof. split. vm_compute. split; reflexivity. eexists. split; vm_compute; reflexivity. Qed.
+
+(* three queries at once on the second program (x, y, z): one formula with the atoms of all of them *)
+Example C01_example2_all :
+  match pipeline_all false true ex2P [Some 8%Z; Some 10%Z; Some 11%Z] [Some (-12)%Z],
+        break_cycles_m false true ex2F (ai_of ex2P) [Some 8%Z; Some 10%Z; Some 11%Z] [Some (-12)%Z] with
+  | Some rs, Some (D, _, _) =>
+      map (fun r => match r with POk p => Some (this p) | PInconsistent => None end) rs
+      = [Some (9#11)%Q; Some (10#11)%Q; Some (78#275)%Q] /\
+      atoms_of D = [1; 2; 20; 4; 6; 3; 7]%N
+  | _, _ => False
+  end /\
+  map (fun r => match r with POk p => Some (this p) | PInconsistent => None end)
+      (map (fun q => world_prob ex2P (model_of ex2F) q [Some (-12)%Z]) [Some 8%Z; Some 10%Z; Some 11%Z])
+  = [Some (9#11)%Q; Some (10#11)%Q; Some (78#275)%Q].
+Proof. split; vm_compute; repeat split; reflexivity. Qed.
